@@ -86,17 +86,6 @@ func (c caseA) valid() bool {
 		}
 		seen[f] = true
 	}
-	// posix mapping: under a delimiter listing a directory object that has children is
-	// only ever a prefix ("directory object only happens if directory empty")
-	if c.Delimiter != "" {
-		for _, d := range c.Dirs {
-			for _, k := range c.keys() {
-				if k != d && strings.HasPrefix(k, d) {
-					return false
-				}
-			}
-		}
-	}
 	// a plain empty directory must really be empty and must not be an explicit object
 	for _, d := range c.EmptyDirs {
 		p := strings.TrimSuffix(d, "/")
@@ -212,6 +201,32 @@ func checkChain(c caseA, fetch func(marker string) (page, error)) error {
 	for _, v := range variants {
 		if equalEntries(got, v) {
 			return nil
+		}
+	}
+	// open finding, exactly this shape: under a delimiter the listing lacks the explicit directory objects that have
+	// keys below them - and nothing else differs
+	if c.Delimiter != "" {
+		parents := map[string]bool{}
+		for _, d := range c.Dirs {
+			for _, k := range c.keys() {
+				if k != d && strings.HasPrefix(k, d) {
+					parents[d] = true
+				}
+			}
+		}
+		for _, v := range variants {
+			var less []model.ListEntry
+			var lacking []string
+			for _, e := range v {
+				if !e.CP && parents[e.Name] {
+					lacking = append(lacking, e.Name)
+					continue
+				}
+				less = append(less, e)
+			}
+			if len(lacking) > 0 && equalEntries(got, less) {
+				return fmt.Errorf("%s%q (prefix %q, delimiter %q, marker %q, max-keys %d): got %s, want %s", dirObjText, lacking, c.Prefix, c.Delimiter, c.Marker, c.Max, fmtEntries(got), fmtEntries(v))
+			}
 		}
 	}
 	return fmt.Errorf("listing differs from the S3 rules: got %s, want %s", fmtEntries(got), fmtEntries(variants[0]))
@@ -448,9 +463,24 @@ func TestC07A(t *testing.T) {
 		ev.Case(fp, nt, classes...)
 		ev.Sample(classes[0], 1, c)
 		if err := runA(c); err != nil {
+			if id := known(err); id != "" {
+				ev.Known(id)
+				return
+			}
 			ev.Failf(t, "C07A", "%v", err)
 		}
 	})
+}
+
+const dirObjFinding = "C07-directory-object-with-keys-below-not-listed-under-delimiter"
+const dirObjText = "under a delimiter the listing lacks exactly the directory objects that have keys below them: "
+
+// known returns the id of the open finding a failure is an instance of.
+func known(err error) string {
+	if strings.Contains(err.Error(), dirObjText) && kf.Open(dirObjFinding) {
+		return dirObjFinding
+	}
+	return ""
 }
 
 // excludedClass returns the id of an open known finding whose input class contains c.
@@ -477,6 +507,10 @@ func FuzzC07(f *testing.F) {
 		fp, nt, classes := classify(c)
 		ev.Case(fp, nt, classes...)
 		if err := runA(c); err != nil {
+			if id := known(err); id != "" {
+				ev.Known(id)
+				return
+			}
 			ev.Failf(t, "C07A", "%v", err)
 		}
 	})
